@@ -35,6 +35,10 @@ theorem andO_true_right (a : Option Bool) : andO a (some true) = a := by
 @[simp] theorem andO_some_some (a b : Bool) : andO (some a) (some b) = some (a && b) := by
   cases a <;> rfl
 
+theorem andO_some_andO (a b : Bool) (y : Option Bool) :
+    andO (some a) (andO (some b) y) = andO (some (a && b)) y := by
+  cases a <;> cases b <;> rfl
+
 @[simp] theorem andO_true_left (x : Option Bool) : andO (some true) x = x := rfl
 
 theorem allO_total (l : List Bool) : allO (l.map some) = some (l.all id) := by
@@ -106,13 +110,16 @@ theorem eval_andAll_tot (l : List (Rec → Bool)) (r : Rec) :
   have : (l.map tot).map (· r) = (l.map (· r)).map some := by simp [List.map_map, Function.comp_def]
   rw [this, allO_total]; simp [List.all_map]
 
+theorem or_some_some (p q : PFun) :
+    Pred.or (some p) (some q) = some (fun r => match p r with | some false => q r | x => x) := rfl
+
 theorem eval_foldl_or (t : List (Rec → Bool)) (acc : PFun) (b : Bool) (r : Rec) (h : acc r = some b) :
     ((t.map tot).foldl (fun acc q => Pred.or acc (some q)) (some acc)).eval r
       = some (b || t.any (· r)) := by
   induction t generalizing acc b with
   | nil => simp [h]
   | cons g t ih =>
-    simp only [List.map_cons, List.foldl_cons, Pred.or]
+    rw [List.map_cons, List.foldl_cons, or_some_some]
     rw [ih (fun r => match acc r with | some false => tot g r | x => x) (b || g r)]
     · simp [Bool.or_assoc]
     · show (match acc r with | some false => tot g r | x => x) = _
@@ -223,17 +230,18 @@ theorem eval_taxonomy (O : Oracles) (o : GrepOpts) (r : Rec) :
   have h2 : (restrictTaxonomyPredicate O o).eval r
       = some (o.belongTaxa.isEmpty || o.belongTaxa.any fun s => taxonHolds O s r) := by
     unfold restrictTaxonomyPredicate
-    have := eval_orAll_tot (o.belongTaxa.map (taxonHolds O)) r
-    simpa [List.map_map, Function.comp_def, taxonPred_eq, List.any_map] using this
+    have e : o.belongTaxa.map (taxonPred O) = (o.belongTaxa.map (taxonHolds O)).map tot := by
+      simp [List.map_map, Function.comp_def, taxonPred_eq]
+    rw [e, eval_orAll_tot]; simp [List.any_map, Function.comp_def]
   have h3 : (avoidTaxonomyPredicate O o).eval r = some (!(o.notBelongTaxa.any fun t => O.subCladeOf t r)) := by
     unfold avoidTaxonomyPredicate
-    cases hl : o.notBelongTaxa with
+    cases o.notBelongTaxa with
     | nil => simp
     | cons a t =>
+      have e : ((a :: t).map fun t => tot (O.subCladeOf t)) = ((a :: t).map fun t => O.subCladeOf t).map tot := by
+        simp [List.map_map, Function.comp_def]
       simp only [eval_not]
-      have := eval_orAll_tot ((a :: t).map fun t => O.subCladeOf t) r
-      simp only [List.map_map, Function.comp_def] at this
-      rw [this]; simp [List.any_map]
+      rw [e, eval_orAll_tot]; simp [List.any_map, Function.comp_def]
   rw [h1, h2, h3]; simp
 
 theorem eval_expressions (O : Oracles) (o : GrepOpts) (r : Rec) :
@@ -301,10 +309,31 @@ theorem eval_cli (O : Oracles) (o : GrepOpts) (r : Rec) :
     andO_assoc]
   congr 1
   unfold selectsPre selectsPost
-  generalize allO (o.predicates.map fun e => O.evalBool e r) = x
-  cases sizeHolds o r <;> cases countHolds o r <;> cases taxonomyHolds O o r <;>
-    cases seqPatternsHold O o r <;> cases defPatternsHold O o r <;> cases idPatternsHold O o r <;>
-    cases idListHolds o r <;> cases hasAttributesHold o r <;> cases attrPatternsHold O o r <;>
-    cases approxPatternsHold O o r <;> cases x <;> simp [andO] <;> (rename_i b; cases b <;> rfl)
+  simp only [andO_some_andO, andO_some_some, Bool.and_assoc]
+
+/-! ## paired modes -/
+
+/-- the documented meaning of the six `--paired-mode` values, as a table on (forward verdict,
+reverse verdict) -/
+def truthTable : Mode → Bool → Bool → Bool
+  | .forward, a, _ => a
+  | .reverse, _, b => b
+  | .and, true, true => true
+  | .and, _, _ => false
+  | .or, false, false => false
+  | .or, _, _ => true
+  | .andnot, true, false => true
+  | .andnot, _, _ => false
+  | .xor, true, false => true
+  | .xor, false, true => true
+  | .xor, _, _ => false
+
+theorem pairedFun_some (m : Mode) (f : PFun) (r q : Rec) (a b : Bool) (ha : f r = some a) (hb : f q = some b) :
+    pairedFun m f r (some q) = some (if m = .forward then a else combine m a b) := by
+  unfold pairedFun
+  rw [ha]
+  by_cases hm : m = .forward
+  · simp [hm]
+  · simp [hm, hb]
 
 end ObiVerif.Grep
